@@ -1062,7 +1062,7 @@ func runListen(network string) (out string) {
 		if atomic.LoadInt32(&starts) >= 1 {
 			handled = "yes"
 		}
-		return fmt.Sprintf("reply=%s handled=%s pair=%s shutdown=%s ret=%s", reply, handled, pair, down, r)
+		return fmt.Sprintf("reply=%s handled=%s pair=%s addrs=%s udpclose=%s shutdown=%s ret=%s", reply, handled, pair, runAddrPairs(), runUDPClose(), down, r)
 	}
 }
 
@@ -1107,6 +1107,162 @@ func runListenPair(addr string, secret []byte, pairStarts *int32, release chan s
 		}
 	}
 	return fmt.Sprintf("%d:%d", started, authentic)
+}
+
+// addrConn: a conn whose peers are real *net.UDPAddr values (the lab's own conns hand out addresses of the lab's
+// own type, so a branch of the code on the concrete address type never runs there).
+type addrDgram struct {
+	data []byte
+	addr net.Addr
+}
+type addrConn struct {
+	in     chan addrDgram
+	closed chan struct{}
+	once   sync.Once
+}
+
+func (c *addrConn) ReadFrom(p []byte) (int, net.Addr, error) {
+	select {
+	case d := <-c.in:
+		return copy(p, d.data), d.addr, nil
+	case <-c.closed:
+		return 0, nil, net.ErrClosed
+	}
+}
+func (c *addrConn) WriteTo(p []byte, _ net.Addr) (int, error) { return len(p), nil }
+func (c *addrConn) Close() error                              { c.once.Do(func() { close(c.closed) }); return nil }
+func (c *addrConn) LocalAddr() net.Addr                       { return &net.UDPAddr{IP: net.IPv4(127, 0, 0, 1), Port: 1812} }
+func (c *addrConn) SetDeadline(time.Time) error               { return nil }
+func (c *addrConn) SetReadDeadline(time.Time) error           { return nil }
+func (c *addrConn) SetWriteDeadline(time.Time) error          { return nil }
+
+// runAddrPairs: for each pair of DIFFERENT source addresses (differing in the IPv6 zone only, in the port only, in
+// the IP only) both peers send a request with the same identifier, the second while the first one's handler is
+// held: both are served.  Returns the handlers started per pair ("2,2,2").
+func runAddrPairs() (out string) {
+	defer func() {
+		if r := recover(); r != nil {
+			out = fmt.Sprintf("PANIC(%v)", r)
+		}
+	}()
+	secret := []byte("addr-secret")
+	ll := net.ParseIP("fe80::1")
+	pairs := [][2]*net.UDPAddr{
+		{{IP: ll, Port: 5000, Zone: "eth0"}, {IP: ll, Port: 5000, Zone: "eth1"}},
+		{{IP: net.IPv4(10, 0, 0, 1), Port: 5000}, {IP: net.IPv4(10, 0, 0, 1), Port: 5001}},
+		{{IP: net.IPv4(10, 0, 0, 1).To4(), Port: 5000}, {IP: net.IPv4(10, 0, 0, 2).To4(), Port: 5000}},
+	}
+	var starts int32
+	release := make(chan struct{})
+	srv := &radius.PacketServer{SecretSource: radius.StaticSecretSource(secret),
+		Handler: radius.HandlerFunc(func(w radius.ResponseWriter, r *radius.Request) {
+			atomic.AddInt32(&starts, 1)
+			select {
+			case <-release:
+			case <-time.After(12 * time.Second):
+			}
+			w.Write(r.Response(radius.CodeAccessAccept))
+		})}
+	conn := &addrConn{in: make(chan addrDgram), closed: make(chan struct{})}
+	ret := make(chan error, 1)
+	go func() { ret <- srv.Serve(conn) }()
+	var toks []string
+	for k, pr := range pairs {
+		before := atomic.LoadInt32(&starts)
+		req := &radius.Packet{Code: radius.CodeAccessRequest, Identifier: byte(7 + k), Secret: secret}
+		copy(req.Authenticator[:], bytes.Repeat([]byte{byte(0x40 + k)}, 16))
+		req.Add(1, radius.Attribute("addr"))
+		wire, _ := req.Encode()
+		for j, a := range pr {
+			select {
+			case conn.in <- addrDgram{wire, a}:
+			case <-time.After(5 * time.Second):
+				return "HANG-feed"
+			}
+			for t := time.Now().Add(3 * time.Second); time.Now().Before(t) && atomic.LoadInt32(&starts) < before+int32(j+1); {
+				time.Sleep(time.Millisecond)
+			}
+		}
+		toks = append(toks, itoa(int(atomic.LoadInt32(&starts)-before)))
+	}
+	close(release)
+	ctx, cancel := context.WithTimeout(context.Background(), 3*time.Second)
+	srv.Shutdown(ctx)
+	cancel()
+	select {
+	case <-ret:
+	case <-time.After(3 * time.Second):
+		return "HANG-serve"
+	}
+	return strings.Join(toks, ",")
+}
+
+// runUDPClose: a listener that is a real *net.UDPConn, a handler that is still running, a Shutdown whose context
+// ends first: Shutdown returns the context's error and the listener IS closed by then ("Shutdown closes every
+// registered listener" does not wait for the handlers); after the handler has finished a second Shutdown returns nil
+// and Serve has returned ErrServerShutdown.  "yes:ctx:nil:shutdown"; "skipped" if the request never arrived.
+func runUDPClose() (out string) {
+	defer func() {
+		if r := recover(); r != nil {
+			out = fmt.Sprintf("PANIC(%v)", r)
+		}
+	}()
+	secret := []byte("udp-secret")
+	conn, err := net.ListenPacket("udp4", "127.0.0.1:0")
+	if err != nil {
+		return "skipped"
+	}
+	defer conn.Close()
+	started := make(chan struct{}, 4)
+	release := make(chan struct{})
+	srv := &radius.PacketServer{SecretSource: radius.StaticSecretSource(secret),
+		Handler: radius.HandlerFunc(func(w radius.ResponseWriter, r *radius.Request) {
+			started <- struct{}{}
+			select {
+			case <-release:
+			case <-time.After(12 * time.Second):
+			}
+		})}
+	ret := make(chan error, 1)
+	go func() { ret <- srv.Serve(conn) }()
+	client, err := net.Dial("udp4", conn.LocalAddr().String())
+	if err != nil {
+		close(release)
+		return "skipped"
+	}
+	defer client.Close()
+	req := &radius.Packet{Code: radius.CodeAccessRequest, Identifier: 9, Secret: secret}
+	copy(req.Authenticator[:], bytes.Repeat([]byte{0x55}, 16))
+	wire, _ := req.Encode()
+	client.Write(wire)
+	select {
+	case <-started:
+	case <-time.After(5 * time.Second):
+		close(release)
+		ctx, cancel := context.WithTimeout(context.Background(), 3*time.Second)
+		srv.Shutdown(ctx)
+		cancel()
+		return "skipped"
+	}
+	ctx, cancel := context.WithTimeout(context.Background(), 60*time.Millisecond)
+	first := errName(srv.Shutdown(ctx))
+	cancel()
+	closed := "no"
+	conn.SetReadDeadline(time.Now().Add(300 * time.Millisecond))
+	if _, _, err := conn.ReadFrom(make([]byte, 16)); errors.Is(err, net.ErrClosed) {
+		closed = "yes"
+	}
+	close(release)
+	ctx, cancel = context.WithTimeout(context.Background(), 5*time.Second)
+	second := errName(srv.Shutdown(ctx))
+	cancel()
+	served := "HANG"
+	select {
+	case err := <-ret:
+		served = errName(err)
+	case <-time.After(3 * time.Second):
+	}
+	return closed + ":" + first + ":" + second + ":" + served
 }
 
 // ---- a server without Handler / without SecretSource: Serve and ListenAndServe refuse at once (an error, no
